@@ -27,7 +27,7 @@ func init() {
 func runC16(x *Ctx) {
 	x.C.Rule("C16.R1", "emitted codes ⊆ parsed codes ⊆ unmarshaller table", 3)
 	x.C.Rule("C16.R2", "byte layout agreement between Parse, FromPubKey and PubKey", 3)
-	x.C.Rule("C16.R3", "Parse guards", 5)
+	x.C.Rule("C16.R3", "Parse guards; no other cause of rejection", 6)
 	x.C.Rule("C16.R4", "PubKey only accepts the canonical identifier of the key", 2)
 	x.C.Rule("C16.R5", "nil result of UnmarshalCompressed is rejected", 1)
 	x.C.Rule("C16.R6", "point coordinates are serialised with a fixed width", 1)
@@ -126,6 +126,33 @@ func runC16(x *Ctx) {
 		}
 		return false, false
 	}, 0, "no success unless the code equals one of the whitelisted constants")
+
+	// closed world: these are the only reasons for which Parse refuses a string. Anything else it rejects (a
+	// length table, a second whitelist) can reject identifiers that FromPubKey produces, and then a token
+	// issued by such a key seals but never unseals.
+	{
+		fsel, unk, err := x.E.Select(parse, paths.WantFailure)
+		var bad []paths.VPath
+		for _, v := range fsel {
+			explained := v.HasFact(prefixAtom, false) || v.HasFact(eqs(decoded+"#2", "const(nil)"), false) || v.HasFact(eqs(decoded+"#0", "const(122)"), false) ||
+				v.HasFact(eqs("call[github.com/multiformats/go-varint.FromUvarint]("+decoded+"#1)#2", "const(nil)"), false)
+			if !explained {
+				nCode, anyTrue := 0, false
+				for _, f := range v.AllFacts() {
+					if f.Atom.Op == "eq" && (isOneOf(f.Atom.Args[0], codeT, codeRaw) && f.Atom.Args[1].Op == "const" || isOneOf(f.Atom.Args[1], codeT, codeRaw) && f.Atom.Args[0].Op == "const") {
+						nCode++
+						anyTrue = anyTrue || f.Pol
+					}
+				}
+				explained = nCode > 0 && !anyTrue
+			}
+			if !explained {
+				bad = append(bad, v)
+			}
+		}
+		x.C.Obl("C16.R3", "no-other-rejection", x.pos(parse), "Parse refuses a string only for: missing did:key: prefix, multibase error, not base58btc, varint error, multicodec not whitelisted",
+			err == nil && len(unk) == 0 && len(bad) == 0 && len(fsel) >= 5, "rejection path(s) with another cause:\n"+renderPaths(bad, 3))
+	}
 
 	// ---- R4
 	if len(keyTerms) > 0 {
